@@ -35,6 +35,10 @@ def budgets(tier):
 def generate(rng, tier, idx):
     w = gen_world(rng, n_models=(1, 8), n_wav=(5, 12), n_filters=(1, 4), n_ap=(2, 3), n_par=(1, 4), allow_zero_band=True)
     w['ext_n'] = rng.choice([3, 8])
+    if rng.random() < 0.02:
+        # a grid (hence listings and ranges) larger than any plausible internal block size; cube format keeps it cheap
+        w.update(format=2, n_models=rng.choice([1030, 2100, 4200]), n_wav=6, asc_per_file=None, mixed=None, zero_band=None, gz=False, subdir=0)
+        w['flux_unit'] = 'mJy' if w['flux_unit'] not in ('mJy', 'Jy', 'MJY', 'MJy', 'uJy') else w['flux_unit']
     nf = len(w['filters'])
     sc = {'world': w, 'av_range': [0.0, round(rng.uniform(2, 30), 2)], 'drange': [1.0, rng.choice([1.0, 2.0])],
           'theta_seed': rng.randrange(1 << 30), 'listing_seed': rng.randrange(1 << 30),
